@@ -370,6 +370,16 @@ def addr_boundary():
         for l in shapes:
             for d in (b'b.com', b'b', b'[1.2.3.4]', b'c@b.com', b''):
                 out.append(l + b'@' + d)
+    # both halves at their limits at once: local parts of 62-66 octets in front of names of 250-256 octets, with and without the root dot
+    # (the longest valid address is 64 + 1 + 254 = 319 octets; a limit on the whole that forgets the '@' or the root dot shows only here)
+    for n in (62, 63, 64, 65, 66):
+        for l in (b'u' * n, b'"' + b'u' * (n - 2) + b'"'):
+            for T in range(249, 257):
+                for short in (False, True):
+                    for tail in (b'', b'example.com', b'de'):
+                        head = name_of_length(T - (len(tail) + 1 if tail else 0), short)
+                        d = head + (b'.' + tail if tail else b'')
+                        out.append(l + b'@' + d); out.append(l + b'@' + d + b'.')
     return out
 
 def addr_structured():
